@@ -15,7 +15,8 @@ MANIFEST = dict(
     technique="Lean 4 proof over a hand-written executable model + correspondence run against the real StdioClient",
     design="5/C06",
 )
-GEN: list = ["StdioExit"]
+GEN: list = []
+SUPP_GEN = ["StdioExit"]
 THEOREMS = [
     "c06_encoder_no_raw_break",
     "c06_no_raw_break",
@@ -35,14 +36,11 @@ THEOREMS = [
     "c06_two_writers_every_schedule",
     "c06_each_line_message_or_rejection",
     "c06_two_writers_line_count",
-    "c06_exit_translated",
-    "c06_exit_only_cancel_scope_swallowed",
-    "c06_exit_serialisation_error_propagates",
-    "c06_exit_group",
-    "c06_guard_ctor",
-    "c06_guard_streams",
-    "c06_guard_transport",
+    "c06_instances_independent",
+    "c06_history_irrelevant",
 ]
+# not stated by the property text: Props/C06Supp.lean (reported as INFO, never a verdict)
+SUPP_THEOREMS = ["c06_exit_translated", "c06_exit_only_cancel_scope_swallowed", "c06_exit_serialisation_error_propagates", "c06_exit_group", "c06_guard_ctor", "c06_guard_streams", "c06_guard_transport"]
 RULE = (
     "sequences of 0..8 outbound items of the three accepted shapes (typed request / notification / response / error / "
     "legacy message, plain dict, pre-serialised single-line string) with params/results over nested JSON values whose "
@@ -69,7 +67,12 @@ ASSUMPTIONS = [
     "tasks interleave at send() granularity - the scripted stdin implements exactly that and suspends the caller afterwards",
 ]
 
-UNSER = ["object", "dict-object", "dict-set", "dict-bytes", "tuple-key", "typed-object", "lone-surrogate"]
+UNSER = ["object", "dict-object", "dict-set", "dict-bytes", "tuple-key", "typed-object", "lone-surrogate",
+         "deep-dict", "deep-list", "repr-raises", "self-reference"]
+# every builtin exception class, raised at every place the writer touches a foreign object (HARDEN2 class F)
+UNSER_RAISES = [f"raises:{c}:{w}" for c in O.EXC_CLASSES for w in O.RAISE_WHERE]
+PRELUDES = ["dumps-indent", "dumps-sort_keys", "dumps-all", "dumps-default", "dumps-fails", "dump-indent", "dump-sort_keys", "loads",
+            "server-format", "batch-selftest"]
 
 
 def rand_value(rng, depth=0):
@@ -209,6 +212,17 @@ class Writer(Suite):
                 out.append({"items": base[:pos] + [{"k": "unser", "how": how}] + base[pos:], "close": True})
             out.append({"items": [{"k": "unser", "how": how}], "close": True})
             out.append({"items": [{"k": "unser", "how": how}] * 3 + base[:1], "close": False})
+        # every builtin exception class raised by the outbound object at every place the writer touches it, with messages
+        # before and after it and a close (quick: one position each; thorough: every position)
+        for n, how in enumerate(UNSER_RAISES):
+            positions = range(len(base) + 1) if budget != "quick" else [n % (len(base) + 1)]
+            for pos in positions:
+                out.append({"items": base[:pos] + [{"k": "unser", "how": how}] + base[pos:], "close": True})
+        # the SAME failure 2, 3, 4 times in a row and then a success; a failing item after a good one and before one
+        for how in ("object", "deep-dict", "repr-raises", "raises:RuntimeError:model_dump_json", "raises:KeyError:dict-get"):
+            for k in (2, 3, 4):
+                out.append({"items": [base[0]] + [{"k": "unser", "how": how}] * k + [base[1], base[2]], "close": True})
+            out.append({"items": [base[0], {"k": "unser", "how": how}, base[0], {"k": "unser", "how": how}, base[0]], "close": True})
         digits = self.mode != "fallback"
         # the same object sent two or three times in a row; the legacy send_json entry point; the other entry points
         for it in base:
@@ -238,7 +252,26 @@ class Writer(Suite):
             c = {"items": items, "close": rng.random() < 0.8}
             if rng.random() < 0.1:
                 c["api"] = rng.choice(["function", "transport"])
+            if rng.random() < 0.15:  # non-default connection options crossed with everything (quiet-logging environment, args)
+                c["server"] = rng.choice([{"env": {"LOG_LEVEL": "ERROR"}}, {"env": {"LOGGING_LEVEL": "critical", "X": ""}},
+                                          {"env": {"LOG_LEVEL": "debug"}, "args": ["--flag", ""]}, {"args": ["a", "b"]}])
             out.append(c)
+        # several live connections at once with equal ids (groups of three cases run concurrently)
+        for g in range(len(out) // 40):
+            grp = [out[g * 40 + 20 + k] for k in range(3) if g * 40 + 20 + k < len(out)]
+            if len(grp) == 3 and all("api" not in c for c in grp):
+                for c in grp:
+                    c["with"] = [{k: v for k, v in o.items() if k != "with"} for o in grp if o is not c]
+        # a host with DEBUG logging configured
+        for i, c in enumerate(out):
+            if i % 3 == 1:
+                c["debug"] = True
+        # LAST (a defect here would be process-wide): the same process used before for other serialisations, with every
+        # keyword fast_json.dumps / dump accept, by the server side, by a failing call
+        for name in PRELUDES:
+            out.append({"items": base + [{"k": "dict", "v": {"jsonrpc": "2.0", "id": 2, "result": {"nested": {"a": [1, {"b": None}]}, "z": 1, "a": 2}}}],
+                        "close": True, "prelude": [name]})
+        out.append({"items": base + [rand_item(rng, digits) for _ in range(4)], "close": True, "prelude": PRELUDES, "debug": True})
         if self.mode == "fallback":
             # the fallback models serialise with default=str, so a typed message holding an arbitrary object
             # IS serialisable there (as its repr): not an unserialisable message under that backend
@@ -362,7 +395,9 @@ class Writer(Suite):
         ks = sorted({it["k"] for it in case["items"]})
         b = o.get("backend", {})
         tag = ("orjson" if b.get("orjson") else "stdlib-json") + ("" if b.get("pydantic", True) else "+fallback-models")
-        return tag + "/" + ("+".join(ks) if ks else "empty") + ("" if case.get("close", True) else "/open")
+        return tag + "/" + ("+".join(ks) if ks else "empty") + ("" if case.get("close", True) else "/open") + \
+            ("/after-other-use" if case.get("prelude") else "") + ("/debug-logging" if case.get("debug") else "") + \
+            ("/concurrent" if case.get("with") else "")
 
     def nontrivial(self, case, o):
         return bool(case["items"])
@@ -481,6 +516,16 @@ class Duplex(Suite):
                             for _ in range(rng.randrange(0, 5))})
             out.append(self.mk(rng.choice(["2025-06-18", "2025-06-18", "2025-07-01", "2025-03-26"]), items, drain, times,
                                tie=rng.choice(["events", "timers", "io"])))
+        # every exception class an outbound object can raise, between two large messages, while rejections are written back
+        for n, how in enumerate(UNSER_RAISES if budget != "quick" else UNSER_RAISES[::7] + ["deep-dict", "repr-raises"]):
+            out.append(self.mk("2025-06-18", [SMALL_A, {"k": "big", "shape": "dict", "size": 70_000}, {"k": "unser", "how": how},
+                                              {"k": "big", "shape": "typed", "size": 70_000}, SMALL_C], 8192, [3, 9.5, 15]))
+        for i, c in enumerate(out):
+            if i % 4 == 0:
+                c["debug"] = True  # a host with DEBUG logging configured
+            if i % 9 == 4:
+                c["server"] = {"env": {"LOG_LEVEL": "ERROR"}, "args": ["--x"]}
+        out.append(self.mk("2025-06-18", [SMALL_A, {"k": "big", "shape": "dict", "size": 140_000}, SMALL_C], 8192, [4, 12], prelude=PRELUDES, debug=True))
         return out
 
     # ------------------------------------------------------------------ implementation
@@ -639,6 +684,7 @@ class Guards(Suite):
     the StdioTransport wrapper).  Divergences are informational."""
 
     name = "guards"
+    supplementary = True
     _ctx = None
 
     def cases(self, ctx, budget):
@@ -680,9 +726,7 @@ class Guards(Suite):
             sj_ok = sj in (None, "ok", "other:ClosedResourceError")
         bad = o.get("guard") != m.get("guard") or not sj_ok \
             or any(x is not False for x in o.get("exit_returns", [])) or o.get("set_version", "ok") != "ok"
-        if bad and self._ctx is not None and len(self._ctx.notes) < 8:
-            self._ctx.notes.append(f"INFORMATIONAL guard divergence on {case}: code {o}, model {m}")
-        return None
+        return f"entry guard: code {o}, model {m}" if bad else None
 
     def oracle(self, case, o):
         return None
@@ -697,6 +741,7 @@ class Exit(Suite):
     filters of Gen/StdioExit.lean against the real context managers.  Divergences are informational."""
 
     name = "exit"
+    supplementary = True
     _ctx = None
 
     def cases(self, ctx, budget):
@@ -716,6 +761,13 @@ class Exit(Suite):
                 out.append({"entry": entry, "exc": {"kind": "group", "members": ms}})
         for v in ("2025-06-18", "2024-11-05"):
             out.append({"entry": "init", "version": v, "exc": {"kind": "error", "msg": "boom"}})
+            # non-default handshake options crossed with the error paths
+            for init in ({"preferred_version": v}, {"supported_versions": [v]}, {"supported_versions": [v, "2025-03-26"], "preferred_version": v, "timeout": 0.5}):
+                for t in ("boom", "cancel scope", "json object must be str"):
+                    out.append({"entry": "init", "version": v, "server": {"init": init, "env": {"LOG_LEVEL": "CRITICAL"}}, "exc": {"kind": "error", "msg": t}})
+        for i, c in enumerate(out):
+            if i % 3 == 0:
+                c["debug"] = True
         return out
 
     def impl_batch(self, cases):
@@ -733,15 +785,12 @@ class Exit(Suite):
     def compare(self, case, o, m):
         if "harness_error" in o or "driver_error" in m:
             return "error"
-        if o["propagated"] != m["propagates"] and self._ctx is not None and len(self._ctx.notes) < 8:
-            self._ctx.notes.append(f"INFORMATIONAL exit-filter divergence on {case}: code propagated={o['propagated']}, "
-                                   f"regenerated filter says {m['propagates']}")
+        if o["propagated"] != m["propagates"]:
+            return f"exit filter: code propagated={o['propagated']}, regenerated filter says {m['propagates']}"
         return None
 
     def oracle(self, case, o):
-        if "harness_error" in o:
-            return ("client-raised", f"the stdio client raised {o['harness_error']} before the body ran", None)
-        return None  # the property text says nothing about which exceptions leave the context manager
+        return None  # supplementary: the property text says nothing about which exceptions leave the context manager
 
     def kind(self, case, o):
         return f"exit/{case['entry']}/{case['exc']['kind']}/" + ("propagated" if o.get("propagated") else "swallowed")
